@@ -103,7 +103,7 @@ ResetStep(e) ==
 CallStep(e) ==   \* extract mode: one call with its embedded lock events
   LET s2 == LockFold(lk, e.events, 1) IN
   /\ ReportBad(lk, s2, e)
-  /\ (IF e.res = "ok" THEN TRUE ELSE Fail("C14", "panic:" \o e.name, e))
+  /\ (IF e.res = "ok" THEN TRUE ELSE Fail("C14", e.res \o ":" \o e.name, e))
   /\ PrintT(<<"PROGRAM", e.role, e.name, ToJson(Program(e.events))>>)
   /\ lk' = s2 /\ UNCHANGED lin
   /\ quiet' = (quiet \/ Len(s2.bad) > Len(lk.bad))
